@@ -69,6 +69,10 @@ def build_cases(rng, n_desc, gen_kwargs=None, values_per_stream=(2, 2, 1), decod
         req = bytes(rng.randrange(256) for _ in range(rng.choice([0, 1, 2, 3, 4]))) if is_resp else None
         if is_resp and rng.random() < 0.1:
             req = None
+        need = max([p["kind"]["rqpos"] + p["kind"]["len"] for p in ps if p["kind"]["k"] == "matchreq"] or [0])
+        if is_resp and need and rng.random() < 0.7:
+            # mostly a triggering request which covers the mirrored bytes (otherwise nothing of the response encodes)
+            req = bytes(rng.randrange(256) for _ in range(need + rng.choice([0, 0, 1, 2])))
         for v in corpus_values.get(i, []):
             c.encs.append(dict(value=v, req=req, stream="corpus", impl=cc.impl_encode(c.obj, v, req)))
         for stream, cnt in zip(("valid", "boundary", "illtyped"), values_per_stream):
